@@ -250,9 +250,16 @@ class StreamSession:
             except (pa.ArrowInvalid, OSError, StopIteration):
                 return
         _MAX_DRAIN = 10_000
+        drained: list[AnnotatedBatch] = []
         with contextlib.suppress(StopIteration, RpcError, pa.ArrowInvalid, OSError):
             for _ in range(_MAX_DRAIN):
-                _read_batch_with_log_check(self._output_reader, self._on_log, self._external_config, shm=self._shm)
+                ab = _read_batch_with_log_check(self._output_reader, self._on_log, self._external_config, shm=self._shm)
+                if ab._release_fn is not None:
+                    drained.append(ab)
+        # Drained batches never reach the caller: free their shm regions, once
+        # the drain is over and the server has finished with the segment.
+        for ab in drained:
+            ab.release()
         self._drained = True
 
     def cancel(self) -> None:
@@ -289,9 +296,16 @@ class StreamSession:
             except (pa.ArrowInvalid, OSError, StopIteration):
                 return
         _MAX_DRAIN = 10_000
+        drained: list[AnnotatedBatch] = []
         with contextlib.suppress(StopIteration, RpcError, pa.ArrowInvalid, OSError):
             for _ in range(_MAX_DRAIN):
-                _read_batch_with_log_check(self._output_reader, self._on_log, self._external_config, shm=self._shm)
+                ab = _read_batch_with_log_check(self._output_reader, self._on_log, self._external_config, shm=self._shm)
+                if ab._release_fn is not None:
+                    drained.append(ab)
+        # Drained batches never reach the caller: free their shm regions, once
+        # the drain is over and the server has finished with the segment.
+        for ab in drained:
+            ab.release()
         self._drained = True
 
     def __enter__(self) -> StreamSession:
